@@ -122,6 +122,20 @@ impl TilemapData {
         Some(&self.tiles[index])
     }
 
+    /// The decoded tile data must cover the declared size.
+    pub(crate) fn validate_size(&self) -> Result<()> {
+        let expected = self.width as usize * self.height as usize;
+        if self.tiles.len() < expected {
+            return Err(AsepriteParseError::InvalidInput(format!(
+                "Tilemap declares {}x{} tiles but contains only {}",
+                self.width,
+                self.height,
+                self.tiles.len()
+            )));
+        }
+        Ok(())
+    }
+
     pub(crate) fn parse_chunk<R: Read>(mut reader: AseReader<R>) -> Result<Self> {
         let width = reader.word()?;
         let height = reader.word()?;
